@@ -97,9 +97,9 @@ func (x *runner) add(req *request, done func(response)) {
 
 // flush runs the queued jobs and emits their cases in order.
 func (x *runner) flush() {
-	t0 := time.Now()
+	t0, nj := time.Now(), len(x.jobs)
 	defer func() {
-		fmt.Fprintf(os.Stderr, "c17: batch of %d programs in %.1fs\n", len(x.jobs), time.Since(t0).Seconds())
+		fmt.Fprintf(os.Stderr, "c17: batch of %d programs in %.1fs\n", nj, time.Since(t0).Seconds())
 	}()
 	res := make([]response, len(x.jobs))
 	var wg sync.WaitGroup
@@ -310,6 +310,13 @@ func run(c *reg.Ctx) {
 	for _, p := range planted {
 		x.search("planted", p.class, p.prog, nil)
 	}
+	// the recorded deadlock, with a short deadline (it is confirmed once more
+	// with twice the time before it is reported)
+	x.add(&request{Code: "all <&-", TimeoutMs: 1000}, func(r response) {
+		x.c.Count("planted/" + r.Outcome)
+		x.c.Emit(reg.Case{Desc: desc{Prog: "all <&-", Via: "planted", Outcome: r.Outcome, Stack: r.Stack}, Key: "all <&-",
+			Class: "stdin-from-output-port", Direct: crashText(r), Nontrivial: true})
+	})
 	// 2. mechanism cases judged against the Coq model
 	x.mechanisms(c.N / 5)
 	// 3a. arity probe
